@@ -1,5 +1,6 @@
 import TinyFlux.Model.AL
 import TinyFlux.Spec.Basic
+import TinyFlux.Py.Basic
 /-!
 # The typed fragment of Python that the translated *classes* rely on
 
@@ -92,17 +93,64 @@ inductive PathArg
   | meas (s : String)
   | tag (k : String) (v : Option String)
   | field (k : String) (v : Option TinyFlux.Spec.Num)
+  | time (t : DateTime)
 class ToArg (α : Type) where toArg : α → PathArg
 export ToArg (toArg)
 instance : ToArg String := ⟨.meas⟩
+instance : ToArg DateTime := ⟨.time⟩
 class EntryArg (ν : Type) where entryArg : String → ν → PathArg
 export EntryArg (entryArg)
 instance : EntryArg (Option String) := ⟨.tag⟩
 instance : EntryArg (Option TinyFlux.Spec.Num) := ⟨.field⟩
 
+/-- `query._operator`: one of the six `operator` comparison functions, or any other test function -/
+inductive Operator | eq | ne | lt | le | gt | ge | other
+deriving DecidableEq, Repr
+
+/-- `query._rhs` as far as `_search_timestamps` looks at it: an aware datetime, a naive one, or anything else -/
+inductive Rhs | aware (t : DateTime) | naive | other
+def Rhs.isDatetime : Rhs → Bool | .aware _ => true | .naive => true | .other => false
+/-- truthiness of `rhs.tzinfo` -/
+def Rhs.tzinfo : Rhs → Bool | .aware _ => true | _ => false
+/-- `rhs.timestamp()`: the instant of an aware datetime. (A naive one would be read in the process's local zone, anything else
+    has no such method: the code asks only after `isinstance(rhs, datetime) and rhs.tzinfo`.) -/
+def Rhs.timestamp : Rhs → M Int | .aware t => pure t.us | _ => throw .typeError
+
+/-- `datetime.fromtimestamp(ts, timezone.utc)` -/
+def fromtimestamp (ts : Int) : DateTime := ⟨ts⟩
+
+/-- a translated `find_*` helper of utils.py (`Generated/Utils.lean`, over the dynamically typed `Py.V`) applied to a typed
+    list: `None` or a position -/
+def findIn (f : TinyFlux.Py.V → TinyFlux.Py.V → Except TinyFlux.Py.PyErr TinyFlux.Py.V) (ts : List Int) (x : Int) : M (Option Nat) :=
+  match f (.list ts) (.int x) with
+  | .ok (.int n) => if 0 ≤ n then pure (some n.toNat) else throw .typeError
+  | .ok .none => pure none
+  | _ => throw .typeError
+
 structure SimpleQuery where
   _path_resolver : PathArg → Except Unit TinyFlux.Spec.PyV   -- any exception of the resolver is caught by the caller
   _test : TinyFlux.Spec.PyV → M Bool
+  _operator : Operator := .other
+  hashable : Bool := false                                     -- `query.is_hashable()`
+  _rhs : Rhs := .other
+  _point_attr : String := ""                                   -- "_time" | "_measurement" | "_tags" | "_fields"
+  hash_is_empty : Bool := false                                -- `query._hash == ()`: a `noop()` query
+
+/-- `CompoundQuery.operator`: `operator.and_ / or_ / not_` -/
+inductive BoolOperator | and_ | or_ | not_ | other
+deriving DecidableEq, Repr
+
+/-- a query object as `Index._search_helper` dispatches on it: `None`, a `SimpleQuery`, or a `CompoundQuery` with its
+    `operator`, `query1`, `query2` (`query2` is `None` under `not_`) -/
+inductive QueryObj
+  | none
+  | simple (q : SimpleQuery)
+  | compound (operator : BoolOperator) (query1 query2 : QueryObj)
+
+/-- `isinstance(x, SimpleQuery) and x._point_attr == attr` -/
+def QueryObj.isSimpleWithAttr : QueryObj → String → Bool
+  | .simple q, a => q._point_attr == a
+  | _, _ => false
 
 /-! ## `==` between operands of different static types (`_measurement != measurement` with an `Optional[str]`) -/
 class PyEq (α β : Type) where pyEq : α → β → Bool
